@@ -332,7 +332,9 @@ func locCases() []locCase {
 		for _, z := range []string{"[fe80::1%eth0]:4242", "[fe80::dead:beef%a-very-long-zone-name]:1"} {
 			out = append(out, locCase{z, "udp", db, "addr"}, locCase{z, "str", db, "addr"})
 		}
-		for _, bad := range []string{"client.example:4242", "93.184.216.34", "", ":4242", "[::1", "93.184.216.34:80:90", "300.1.2.3:80", "pipe"} {
+		for _, bad := range []string{"client.example:4242", "93.184.216.34", "", ":4242", "[::1", "93.184.216.34:80:90", "300.1.2.3:80", "pipe",
+			// shapes that only a strict host:port split refuses
+			"2001:db8::1:443", "[8.8.8.8:53", "8.8.8.8]:53", "[2001:db8::1:443", "2001:db8::1]:443", "[[2001:db8::1]]:443", "[8.8.8.8]]:53", "8.8.8.8:53:", "[2606:4700::1111]443", "8.8.8.8:"} {
 			out = append(out, locCase{bad, "str", db, "addr"})
 		}
 		out = append(out, locCase{"<nil>", "nil", db, "addr"}, locCase{"not-an-ip", "ip", db, "ip"})
